@@ -24,10 +24,12 @@ type tgtVar struct {
 func n(i int64) cty.Value { return cty.NumberIntVal(i) }
 
 var tgtMarked = []tgtVar{
-	{"i", []cty.Value{n(0), n(1), n(2), n(5), cty.UnknownVal(cty.Number)}},
+	{"i", []cty.Value{n(0), n(1), n(0), n(1), n(2), n(5), cty.UnknownVal(cty.Number)}},
 	{"k", []cty.Value{cty.StringVal("a"), cty.StringVal("b"), cty.StringVal("zz"), cty.UnknownVal(cty.String)}},
 	{"ml", []cty.Value{cty.ListValEmpty(cty.Number), cty.ListVal([]cty.Value{n(1)}), cty.ListVal([]cty.Value{n(1), n(2)}), cty.ListVal([]cty.Value{n(3), n(4), n(5)})}},
 	{"mb", []cty.Value{cty.True, cty.False, cty.NullVal(cty.Bool), cty.UnknownVal(cty.Bool)}},
+	{"mn", []cty.Value{cty.NullVal(cty.String), cty.StringVal("a"), cty.NullVal(cty.String), cty.StringVal("b")}},
+	{"mob", []cty.Value{cty.NullVal(cty.Object(map[string]cty.Type{"a": cty.Number})), cty.ObjectVal(map[string]cty.Value{"a": n(1)})}},
 	{"mm", []cty.Value{cty.MapValEmpty(cty.String), cty.MapVal(map[string]cty.Value{"a": cty.StringVal("x")}), cty.MapVal(map[string]cty.Value{"a": cty.StringVal("y"), "b": cty.StringVal("z")})}},
 }
 
@@ -82,6 +84,7 @@ func tgtScope(r *hv.Rng) (*hcl.EvalContext, *hcl.EvalContext) {
 var tgtAtoms = []string{
 	"mt[i]", "l[i]", "ls[i]", "ml[0]", "nl[0]", "mt[nl[0]]", "i", "mo[k]", "mm[k]", "k", "ml", "[mt[i]]", "[for x in ml : x]",
 	"ml[*]", "mb", "i == 0", "[mt[i], 1]", "{a = mt[i]}", "mm", "[for x in ml : mt[x]]", "nl", "lt[0][i]",
+	"mn[*]", "mob[*]", "mob.*.a", "mb[*]", "mn[*] == [] ? \"unset\" : \"set\"", "[for x in mn[*] : x]", "mob[*].a", "mn == null", "mob == null ? 0 : 1",
 	"[for s in srv : s.name if s.on]", "{for s in srv : s.name => 1 if s.on}", "{for s in srv : s.name => s.name... if s.w == 1}",
 	"[for s in srv : s.name if s.w != 0]", "{for s in srv : \"k${s.w}\" => s.name...}", "[for k, v in mv : k if v == \"x\"]",
 	"{for k, v in mv : v => k...}", "srv[*].name", "[for s in srv : s.on ? s.name : \"-\"]", "srv[srv[0].w].name", "mt[srv[1].w]",
@@ -112,16 +115,33 @@ func tgtMarkOf(ctx *hcl.EvalContext) string {
 	return ""
 }
 
+// conditional contexts (the hole is an arm or nested inside an arm), chosen with high probability:
+// the arm that is NOT selected still drives the result type
+var tgtCond = []string{"false ? [H] : l", "true ? l : [H]", "true ? [5] : [H]", "false ? [H] : [5]", "true ? {v = 5} : {v = H}", "false ? {v = H} : {v = 5}",
+	"mb ? [H] : l", "ub ? [H] : l", "ub ? H : 1", "true ? 1 : H", "false ? H : ls", "true ? [[5]] : [[H]]", "true ? {a = {b = 5}} : {a = {b = H}}",
+	"i == 0 ? [H] : l", "true ? ls : [H, H]"}
+
+func wrapH(c, h string, first bool) string {
+	if !first && !strings.HasPrefix(h, "[") && !strings.HasPrefix(h, "{") && !strings.HasPrefix(h, "\"") {
+		h = "(" + h + ")"
+	}
+	return strings.ReplaceAll(c, "H", h)
+}
+
 func tgtExpr(r *hv.Rng) string {
 	e := tgtAtoms[r.Intn(len(tgtAtoms))]
-	depth := 1 + r.Intn(3)
-	for d := 0; d < depth; d++ {
-		c := tgtCtx[r.Intn(len(tgtCtx))]
-		h := e
-		if d > 0 && !strings.HasPrefix(h, "[") && !strings.HasPrefix(h, "{") && !strings.HasPrefix(h, "\"") {
-			h = "(" + h + ")"
-		}
-		e = strings.ReplaceAll(c, "H", h)
+	first := true
+	for d := r.Intn(2); d > 0; d-- {
+		e = wrapH(tgtCtx[r.Intn(len(tgtCtx))], e, first)
+		first = false
+	}
+	if r.Chance(0.5) {
+		e = wrapH(tgtCond[r.Intn(len(tgtCond))], e, first)
+		first = false
+	}
+	for d := r.Intn(2); d > 0; d-- {
+		e = wrapH(tgtCtx[r.Intn(len(tgtCtx))], e, first)
+		first = false
 	}
 	return e
 }
